@@ -84,16 +84,33 @@ def run_all(pid, only=None):
         cases = [c for c in cases if only in c[0]]
     if not cases:
         return []
-    scratch = scratch_copy()
+    # cases run on a small pool of workers, each with its own scratch copy of /repo (fact extraction is serialised by the
+    # cache lock, the rule evaluation overlaps)
+    import threading
+    from concurrent.futures import ThreadPoolExecutor
+    nworkers = max(1, min(int(os.environ.get("VERIF_SELFTEST_JOBS", "4")), len(cases)))
+    local = threading.local()
+    scratches = []
+    lock = threading.Lock()
+
+    def work(case):
+        if not hasattr(local, "scratch"):
+            local.scratch = scratch_copy()
+            with lock:
+                scratches.append(local.scratch)
+        name, diff, expect = case
+        st, msg = run_case(pid, local.scratch, diff, expect)
+        return {"case": name, "expect": expect, "status": st, "detail": msg}
     res = []
     try:
-        for name, diff, expect in cases:
-            st, msg = run_case(pid, scratch, diff, expect)
-            res.append({"case": name, "expect": expect, "status": st, "detail": msg})
-            print("  selftest %-5s %-28s %-12s %s" % (pid, name, st, msg))
-            sys.stdout.flush()
+        with ThreadPoolExecutor(max_workers=nworkers) as ex:
+            for r in ex.map(work, cases):
+                res.append(r)
+                print("  selftest %-5s %-28s %-12s %s" % (pid, r["case"], r["status"], r["detail"]))
+                sys.stdout.flush()
     finally:
-        shutil.rmtree(scratch, ignore_errors=True)
+        for sc in scratches:
+            shutil.rmtree(sc, ignore_errors=True)
     return res
 
 
